@@ -37,9 +37,13 @@ partial def toEvents : List Line → List (Option Ev × String) → List (Option
     | "sl.acq" => push (.slAcq t)
     | "sl.rel" => push (.slRel t)
     | "event.load" => push (.evLoad t (l.a != 0))
-    | "event.pass" => push (.evPass t (l.a != 0))
+    | "event.pass" => push (.evLoadL t (l.a != 0))
     | "event.stored" => push (.stored t (l.a != 0))
-    | "cv.enq" => if l.b != 0 then bad () else push (.cvEnq t l.a.toNat)
+    | "cv.enq" =>
+      -- the loop condition of `wait_locked` was read false immediately before (same atomic block;
+      -- the one-line loop cannot take a hook of its own)
+      if l.b != 0 then bad () else
+      toEvents rest ((some (.cvEnq t l.a.toNat), l.raw) :: (some (.evLoadL t false), l.raw ++ " (loop condition read false)") :: acc)
     | "cv.woke" => if l.b != 0 then bad () else push (.cvWoke t (l.a != 0))
     | "ag.suspend" => push (.suspend t)
     | "ag.woke" => push (.woke t)
